@@ -872,6 +872,11 @@ def run(ctx):
     import random as _random
     rng2 = _random.Random('C18/same-attribute/%s' % ctx.seed)
     cases += [gen_same_attr_case(rng2) for _ in range(max(20, n // 15))]
+    # (round Y/Z) in a tenth of the generated cases every task is an instance of a user subclass of Task that changes nothing
+    rng3 = _random.Random('C18/subclass/%s' % ctx.seed)
+    for c in cases[len(CORPUS):]:
+        if rng3.random() < 0.1:
+            c['subclass'] = True
     obs, codes = evaluate(ctx, cases)
     distinct = set()
     dist = {'op': {}, 'outcome': {}, 'filter_kind': {}, 'selection': {'empty': 0, 'all': 0, 'proper_subset': 0},
